@@ -187,7 +187,7 @@ impl<'a> HistGen<'a> {
                     self.pending.push_back(Op::Last);
                 }
             }
-            18 => self.pending.push_back(Op::Reset),
+            18 => self.pending.push_back(if rng.chance(1, 3) { Op::Reopen } else { Op::Reset }),
             _ => self.pending.push_back(Op::Current),
         }
         self.pending.pop_front().unwrap()
@@ -245,7 +245,7 @@ pub fn model_step(m: &Model, pos: Pos, op: &Op) -> (Option<Option<usize>>, Pos) 
             }
             Pos::Unspecified => (None, Pos::Unspecified),
         },
-        Op::Reset => (None, Pos::Fresh),
+        Op::Reset | Op::Reopen => (None, Pos::Fresh),
         Op::Current => match pos {
             Pos::At(i) => (Some(Some(i)), pos),
             _ => (None, pos),
